@@ -107,6 +107,16 @@ Theorem C17_put_provider_spec :
 Proof. exact put_provider_spec. Qed.
 Print Assumptions C17_put_provider_spec.
 
+(* one entry per provider: when every operation carries the distance d(key, provider) the hashes
+   prescribe and d is injective in the provider (distinct peers, distinct hashes), no provider
+   is stored twice under a key after any history — a re-announcement updates in place *)
+Theorem C17_no_provider_twice :
+  forall (d : N -> N -> N) c h,
+  1 <= max_per_key c -> (forall k a b, d k a = d k b -> a = b) -> history_consistent d h ->
+  Forall (fun kp => NoDup (map p_id (snd kp))) (pkeys (final c h)).
+Proof. exact no_provider_twice. Qed.
+Print Assumptions C17_no_provider_twice.
+
 (* non-vacuity: a concrete non-trivial history reaches a state with a full provider list *)
 Example C17_nonvacuous :
   let c := mkCfg 2 10 2 1 2 100 in
